@@ -278,6 +278,12 @@ func executeSubproc(c Case, keepTrace bool, bin string) Result {
 		res.Handled++
 		res.Bytes += len(frame(m.body(i + 1)))
 		if herr != nil {
+			if strings.HasPrefix(herr.Error(), "watchdog") {
+				// the process is alive and silent: the message, or its answer, is lost. Answers take
+				// milliseconds; twenty seconds of silence after the last fault is not an answer.
+				res.Violation = viol("transport", "request-never-answered", fmt.Sprintf("[real binary] message %d of %d (%s on %s): the server process is alive but sent nothing for 20 s", i+1, len(c.Msgs), m.Kind, m.URI))
+				return res
+			}
 			res.HarnessErr = fmt.Sprintf("message %d (%s): %v", i+1, m.Kind, herr)
 			return res
 		}
@@ -363,7 +369,7 @@ func burst(c Case, p *proc, latest, shown map[string]string, fd func(string, str
 		b, err := p.readFrame()
 		if err != nil {
 			if strings.HasPrefix(err.Error(), "watchdog") {
-				res.HarnessErr = "burst: " + err.Error()
+				return viol("transport", "request-never-answered", fmt.Sprintf("%d changes and a closing request were written in one write; the server process is alive but the closing request was not answered within 20 s", len(c.Burst)))
 			}
 			return nil // the server died on one of the texts: no verdict here
 		}
